@@ -12,6 +12,9 @@ thread_local! {
 
 static HOOK: Once = Once::new();
 
+/// The last panic of any thread (the per-thread slot is lost when a worker thread dies).
+pub static LAST_PANIC_ANYWHERE: std::sync::Mutex<Option<String>> = std::sync::Mutex::new(None);
+
 /// Install a panic hook that stores message and location instead of printing them.
 pub fn install_panic_hook() {
     HOOK.call_once(|| {
@@ -27,6 +30,9 @@ pub fn install_panic_hook() {
                 .location()
                 .map(|l| format!("{}:{}", l.file(), l.line()))
                 .unwrap_or_else(|| "<unknown>".into());
+            if let Ok(mut g) = LAST_PANIC_ANYWHERE.lock() {
+                *g = Some(format!("{msg} @ {loc}"));
+            }
             LAST_PANIC.with(|p| *p.borrow_mut() = Some(format!("{msg} @ {loc}")));
         }));
     });
